@@ -24,8 +24,9 @@ EXTENDS Integers, Sequences, FiniteSets, TLC, Json, IOUtils, FiniteSetsExt, Sequ
 
 CONSTANTS Tier,      \* "micro" | "quick" | "thorough": the bounded domain, see Opt
           BatchN,    \* batch size N > 1 of operands that are not broadcast
-          StrictOrder \* FALSE: ordered_indices as in the code (ties possible);
-                      \* TRUE : repaired variant, ties broken by first-assignment order
+          StrictOrder, \* FALSE: ordered_indices as in the code (ties possible);
+                      \* TRUE : repaired variant, ties broken by the symbol itself
+          TableNs    \* numbers of final particles whose programs Post writes out
 
 VARIABLES prog,      \* the program (record, see MkProg)
           pc,        \* "start" | "run" | "done" | "declined" | "raised"
@@ -130,15 +131,15 @@ Opt(n) ==
            IF n = 2 THEN {Fam({2}, 0, "any", {FALSE}, "none", {"none", "scalar"}, 100000)}
            ELSE IF n = 3 THEN {Fam({2}, 0, "any", {FALSE}, "all", {"none"}, 100000)} ELSE {}
       [] Tier = "quick" ->
-           CASE n = 2 -> {Fam({1, 2}, 3, "any", {FALSE}, "any", B1All, 100000)}
+           CASE n = 2 -> {Fam({1, 2}, 3, "any", {FALSE}, "any", B1All \ {"last"}, 100000)}
              [] n = 3 -> {Fam({1, 2}, 1, "any", {FALSE}, "all", {"none"}, 100000)}
              [] n = 4 -> {Fam({2}, 0, "spin", {FALSE}, "all", {"none"}, 100000)}
              [] OTHER -> {}
       [] Tier = "thorough" ->
            CASE n = 2 -> {Fam({1, 2, 3}, 3, "any", {FALSE}, "any", B1All, 100000)}
-             [] n = 3 -> {Fam({1, 2}, 5, "any", {FALSE}, "any", {"none"}, 100000),
-                          Fam({1, 2}, 1, "any", {TRUE}, "any", {"none"}, 100000),
-                          Fam({2, 3}, 0, "spin", {FALSE}, "all", {"none"}, 3000),
+             [] n = 3 -> {Fam({1, 2}, 5, "any", {FALSE}, "all", {"none"}, 100000),
+                          Fam({1, 2}, 1, "any", {TRUE}, "all", {"none"}, 100000),
+                          Fam({2, 3}, 0, "spin", {FALSE}, "all", {"none"}, 2000),
                           Fam({2}, 0, "any", {FALSE}, "none", B1All, 100000)}
              [] n = 4 -> {Fam({1, 2}, 1, "spin", {FALSE}, "all", {"none"}, 2500)}
              [] OTHER -> {}
@@ -418,7 +419,13 @@ Row(p) ==
 
 Post ==
     /\ TLCGet("stats").diameter >= 0
-    /\ JsonSerialize(IOEnv.OUT_FILE, [tier |-> Tier, batch |-> BatchN, programs |-> {Row(p) : p \in Programs}])
+    /\ JsonSerialize(IOEnv.OUT_FILE, [tier |-> Tier, batch |-> BatchN, n_all |-> Cardinality(Programs),
+                                       programs |-> {Row(p) : p \in UNION {ProgramsN(n) : n \in TableNs}}])
+\* table mode: the programs are the states, nothing moves
+InitTable == prog \in UNION {ProgramsN(n) : n \in TableNs} /\ pc = "start" /\ ord = <<>> /\ cur = {}
+Stutter == UNCHANGED vars
+\* vacuity probe (expected to FAIL): a completed contraction with distinct order values is reachable
+NeverDoneUntied == ~(pc = "done" /\ ~ord.tied)
 
 \* design-finding mode: only the programs whose ordering can tie
 InitTied == /\ prog \in {p \in Programs : ~RankMismatch(p) /\ \E q \in Perms(p) : OrderOf(p, q).tied}
